@@ -284,6 +284,8 @@ pub struct InputOpts {
     pub random_pct: u64,
     pub soup_pct: u64,
     pub max_faults: usize,
+    /// valid documents cut to start at an inner element boundary (reading starts mid-document)
+    pub mid_document_pct: u64,
 }
 
 pub struct GenInput {
@@ -309,7 +311,7 @@ pub fn gen_input(rng: &mut Rng, spec: &SpecTable, o: &InputOpts, fs: &mut FaultS
     }
     let doc = gen::gen_doc(rng, spec, &o.doc);
     let e = enc::encode(&doc);
-    let mut bytes = e.bytes;
+    let mut bytes = e.bytes.clone();
     if r < o.random_pct + o.soup_pct + o.faulted_pct {
         gen::byte_faults(rng, &mut bytes, o.max_faults, fs);
         return GenInput { bytes, doc: None, class: "byte-faulted" };
@@ -319,6 +321,13 @@ pub fn gen_input(rng: &mut Rng, spec: &SpecTable, o: &InputOpts, fs: &mut FaultS
         bytes.truncate(cut);
         fs.truncations += 1;
         return GenInput { bytes, doc: None, class: "truncated" };
+    }
+    if rng.below(100) < o.mid_document_pct {
+        let offs: Vec<usize> = e.layout.elems.iter().map(|x| x.off).filter(|x| *x > 0).collect();
+        if !offs.is_empty() {
+            let at = *rng.pick(&offs);
+            return GenInput { bytes: bytes[at..].to_vec(), doc: None, class: "mid-document" };
+        }
     }
     GenInput { bytes, doc: Some(doc), class: "valid" }
 }
